@@ -244,13 +244,18 @@ func (h *Handler) saltAuthToken(req *http.Request, remote string) (updatedReq *h
 
 	creds := auth.NewCredentials()
 	creds.LoadTokensFromHTTPRequest(updatedReq)
-	if len(creds.Tokens) == 0 && updatedReq.Header.Get("Content-Type") == "application/x-www-form-encoded" {
+	if ct, _, _ := mime.ParseMediaType(updatedReq.Header.Get("Content-Type")); ct == "application/x-www-form-urlencoded" && updatedReq.Body != nil {
+		// Always look for (and strip) api_token in a form
+		// body, even if another token was found elsewhere:
+		// the body is forwarded to the remote cluster.
+		//
 		// Override ParseForm's 10MiB limit by ensuring
 		// req.Body is a *http.maxBytesReader.
 		updatedReq.Body = http.MaxBytesReader(nil, updatedReq.Body, 1<<28) // 256MiB. TODO: use MaxRequestSize from discovery doc or config.
-		if err := creds.LoadTokensFromHTTPRequestBody(updatedReq); err != nil {
+		if err := updatedReq.ParseForm(); err != nil {
 			return nil, err
 		}
+		creds.Tokens = append(creds.Tokens, updatedReq.PostForm["api_token"]...)
 		// Replace req.Body with a buffer that re-encodes the
 		// form without api_token, in case we end up
 		// forwarding the request.
